@@ -1031,9 +1031,14 @@ fn cli_case(case: &mut Case, base: &Path) -> CaseResult {
     case.label(mode);
     if run.crashed() {
         // signature: panic location without line + message head
-        let line = run.stderr.lines().find(|l| l.contains("panicked at")).unwrap_or("").to_string();
+        let lines: Vec<&str> = run.stderr.lines().collect();
+        let at = lines.iter().position(|l| l.contains("panicked at"));
+        let line = at.map(|i| lines[i]).unwrap_or("").to_string();
         let loc: String = line.split("panicked at ").nth(1).unwrap_or("").split(':').next().unwrap_or("").to_string();
-        return Err(Failure::new(format!("cli-panic@{}", loc.trim_start_matches("/repo/")), format!("the CLI panicked/aborted: {}", run.stderr.lines().take(3).collect::<Vec<_>>().join(" | ")), detail));
+        // message head as in PanicInfo::signature (the message follows the `panicked at` line)
+        let msg: String = at.map(|i| lines[i + 1..].iter().take(2).cloned().collect::<Vec<_>>().join("\n")).unwrap_or_default();
+        let head: String = msg.chars().take_while(|c| !c.is_ascii_digit() && *c != '\'' && *c != '"' && *c != '`').take(48).collect();
+        return Err(Failure::new(format!("cli-panic@{}:{}", loc.trim_start_matches("/repo/"), head.trim()), format!("the CLI panicked/aborted: {}", run.stderr.lines().take(3).collect::<Vec<_>>().join(" | ")), detail));
     }
     if !matches!(run.status, Some(0) | Some(1) | Some(2)) {
         return Err(Failure::new("cli-status", format!("unexpected exit status {:?}", run.status), detail));
